@@ -122,14 +122,13 @@ _alloc = itertools.count(1)
 
 
 class Engine:
-    def __init__(self, module, contract=None, registry=None, consts=None, timeout=600):
+    def __init__(self, module, contract=None, registry=None, consts=None, timeout=250):
         self.T = table()
         self.module = module              # relpath of the module the function lives in (name resolution)
         self.contract = contract
         self.registry = registry or {}    # function key -> Contract (callee summaries)
         self.consts = consts or {}
-        self.solver = z3.Solver()
-        self.solver.set('timeout', timeout)
+        self.prune_ms = timeout
         self.nprune = 0
         self.obligations = []             # (label, hyps, goal, taint)
         self.inline_depth = 0
@@ -143,14 +142,21 @@ class Engine:
             return None
         if z3.is_true(c):
             return st
-        self.solver.push()
         q = st.conds + [c]
-        self.solver.add(*q)
-        self.solver.add(*ground_axioms(q))
-        r = self.solver.check()
-        self.solver.pop()
+        full = [z3.simplify(x) for x in q]
+        full = full + ground_axioms(full)
         self.nprune += 1
-        if r == z3.unsat:
+        # 1. recursive definitions abstracted (uninterpreted twins + instantiated lemmas): fast, `unsat` is sound
+        s1 = z3.Solver()
+        s1.set('timeout', self.prune_ms)
+        s1.add(*abstract_recs(full))
+        if s1.check() == z3.unsat:
+            return None
+        # 2. with the definitions, short budget
+        s2 = z3.Solver()
+        s2.set('timeout', 60)
+        s2.add(*full)
+        if s2.check() == z3.unsat:
             return None
         return st.assume(c)
 
@@ -680,6 +686,16 @@ class Engine:
                 outs.append((nonobj.tainted(), PyFunc(f".{attr}", None)))
         isobj = self.fork(st, V.is_Obj(v))
         if isobj is not None:
+            const_term = self.const_attr_term(v, attr)
+            if const_term is not None:
+                missing, term = const_term
+                q = self.fork(isobj, z3.Not(missing))
+                if q is not None:
+                    outs.append((q, term))
+                q = self.fork(isobj, missing)
+                if q is not None:
+                    outs.append((q, Raise(self.exc_new('AttributeError'))))
+                return outs
             groups = {}
             for c in self.T.cid:
                 r = self.T.resolve_attr(c, attr) if (c in self.T.classes) else None
@@ -695,6 +711,42 @@ class Engine:
                 else:
                     outs += self.getattr_resolved(v, r, attr, q)
         return outs
+
+    def const_attr_term(self, v, attr):
+        """class-level constant attribute (literal per class): an if-chain over the class id instead of one path per class"""
+        cache = self.__dict__.setdefault('_const_cache', {})
+        if attr not in cache:
+            table_ = {}
+            ok = True
+            for c in self.T.cid:
+                r = self.T.resolve_attr(c, attr) if c in self.T.classes else None
+                if r is None:
+                    table_.setdefault(None, []).append(c)
+                    continue
+                if r[0] != 'const':
+                    ok = False
+                    break
+                try:
+                    val = ast.literal_eval(r[2])
+                except Exception:
+                    ok = False
+                    break
+                if not isinstance(val, (bool, int, str, type(None))):
+                    ok = False
+                    break
+                table_.setdefault(('v', val), []).append(c)
+            cache[attr] = table_ if ok and any(k is not None for k in table_) else None
+        table_ = cache[attr]
+        if table_ is None:
+            return None
+        term = V.None_
+        for key, classes in table_.items():
+            if key is None:
+                continue
+            term = z3.If(z3.Or(*[V.ocls(v) == self.T.cid[c] for c in classes]), self.lit(key[1]), term)
+        have = [c for key, classes in table_.items() if key is not None for c in classes]
+        missing = z3.Not(z3.Or(*[V.ocls(v) == self.T.cid[c] for c in have]))
+        return missing, term
 
     def getattr_class(self, v, cn, attr, st):
         r = self.T.resolve_attr(cn, attr) if cn in self.T.classes else None
